@@ -488,6 +488,20 @@ def v10(ctx):
         unions = [c for sub in b.all_bodies() for c in sub.calls if c.callee and c.callee.target in crate.bodies and is_slot_union(crate.bodies[c.callee.target])
                   and c.callee.target != rid and not sub.blocks[c.bb]["cleanup"]]
         ctx.floor("slot unifications in " + C.short(rid), len(unions), 1)
+        # (c) what is unified pairwise is ALL slot occurrences of the two (blanked) nodes — bound ones included: the renaming a
+        #     shape computation returns covers only the public slots, so pairing through it leaves the pattern's binder
+        #     un-registered and un-unified with the e-graph's fresh bound name (the bound variable of the match is then a slot the
+        #     pattern does not have)
+        for u in unions:
+            if u.body is not b:
+                continue
+            for k_, a_ in enumerate(u.args[:2]):
+                src = role_str(u.body.role_of_operand(a_), 30)
+                ok_all = "all_slot_occurrences(" in src and "weak_shape" not in src.split("all_slot_occurrences(")[0][-40:]
+                from_shape_map = "weak_shape(" in src and "all_slot_occurrences(" not in src
+                ctx.check(ok_all and not from_shape_map, "unifies-all-occurrences:%d:%s" % (k_, C.fkey(crate.bodies[rid])), "the slots unified pairwise are drawn from all_slot_occurrences() of the two nodes",
+                          "%s unifies slots drawn from %s: the pairing must range over all_slot_occurrences() of both nodes (public AND bound) — the bijection returned by weak_shape() lists public slots only, so a binder's slot is neither registered as a pattern slot nor tied to the e-graph's name for it" % (C.short(rid), src[:90]),
+                          where_of(u.body, u.bb))
         for u in unions:
             first = strip_role(u.body.role_of_operand(u.args[0]))
             ok = any(c.body is u.body and strip_role(c.body.role_of_operand(c.args[1])) == first and u.body.dominated_by(u.bb, [c.bb]) for c in regs if len(c.args) > 1)
